@@ -350,6 +350,15 @@ def module_items(dialect, depth=0):
                                                   "obj" in items[i][1]):
                 newval = items[i][1]
             items.insert(j, [items[i][0], newval])
+        if items and draw(st.integers(0, 7)) == 0:
+            # a parameter whose *name* is spelled exactly like one of the module's string
+            # values (TRUE, N/A, a file name ...), written after it - and once before it
+            strs = [v for _, v in items if isinstance(v, str) and v and len(v) < 30]
+            if strs:
+                v = draw(st.sampled_from(strs))
+                items.append([v, draw(st.sampled_from([1, "x", v]))])
+                if draw(st.booleans()):
+                    items.insert(0, [v, 2])
         return items
 
     return with_dups()
